@@ -267,3 +267,117 @@ fn c06_cancel_encoding() {
     kani::cover!(res.is_ok(), "cancel queued");
     kani::cover!(res.is_err(), "queue full: no cancel");
 }
+
+// =========================================================================================
+// C11  c11.wake.* — SubmissionQueue::wake
+// =========================================================================================
+fn expected_wake_sqe(ring_fd: i32) -> W {
+    let mut e = zero_sqe();
+    e.0.opcode = libc::IORING_OP_MSG_RING as u8;
+    e.0.fd = ring_fd;
+    e.0.__bindgen_anon_2 = libc::io_uring_sqe__bindgen_ty_2 { addr: u64::from(libc::IORING_MSG_DATA) };
+    e.0.__bindgen_anon_1 = libc::io_uring_sqe__bindgen_ty_1 { off: cq::WAKE_USER_DATA };
+    e.0.user_data = WAKE_USER_DATA;
+    sqe_bytes(&e)
+}
+
+/// No poll in progress (or already awoken): only the flag is set — no ring message, no system call.
+#[kani::proof]
+#[kani::unwind(3)]
+fn c11_wake_not_polling() {
+    let h: u32 = kani::any();
+    let t: u32 = kani::any();
+    kani::assume(ring_inv(h, t, 2));
+    let mut ring = FakeSq::<2>::new(h, t, 0);
+    let single_issuer: bool = kani::any();
+    let subs = subs_of(ring.shared(2, false, single_issuer));
+    let s0: u8 = kani::any();
+    kani::assume(s0 == 0 || s0 == 2 || s0 == 3);
+    let p = vu::polling_raw(subs.shared());
+    if s0 & 1 != 0 {
+        p.set_polling(true);
+    }
+    if s0 & 2 != 0 {
+        p.wake();
+    }
+    env::skip_wake_blocked_futures();
+    let r = subs.wake();
+    assert!(r.is_ok());
+    assert!(unsafe { env::E.enter_n } == 0 && unsafe { env::E.reg_n } == 0, "no system call");
+    assert!(ring.tail.load(Ordering::SeqCst) == t, "no ring message");
+    assert!(crate::verif_lib::polling_state_raw(p) == s0 | 2, "awoken recorded: the next/current poll will not block");
+    kani::cover!(s0 == 0, "idle ring");
+    kani::cover!(s0 == 3, "already awoken while polling");
+}
+
+/// A poll is in progress: exactly one MSG_RING{WAKE_USER_DATA} reaches the kernel (the enter after the add
+/// that succeeded), retrying while the queue is full.
+#[kani::proof]
+#[kani::unwind(3)]
+fn c11_wake_polling() {
+    let h: u32 = kani::any();
+    let t: u32 = kani::any();
+    kani::assume(ring_inv(h, t, 2));
+    let mut ring = FakeSq::<2>::new(h, t, 0);
+    ring.register_with_kernel();
+    let subs = subs_of(ring.shared(2, false, false));
+    vu::polling_raw(subs.shared()).set_polling(true);
+    let used = t.wrapping_sub(h);
+    let full = used == 2;
+    // first enter: the kernel consumes everything that was queued (SUBMIT_ALL); second enter likewise
+    unsafe {
+        env::E.enter_consume[0] = if full { 2 } else { used + 1 };
+        env::E.enter_ret[0] = env::E.enter_consume[0] as i32;
+        env::E.enter_consume[1] = 1;
+        env::E.enter_ret[1] = 1;
+    }
+    env::skip_wake_blocked_futures();
+    let r = subs.wake();
+    assert!(r.is_ok());
+    let t2 = ring.tail.load(Ordering::SeqCst);
+    assert!(t2 == t.wrapping_add(1), "exactly one wake message queued");
+    let idx = (t & 1) as usize;
+    assert!(sqe_bytes(&ring.sqes[idx]) == expected_wake_sqe(vu::RING_FD), "MSG_RING to this ring, data = WAKE_USER_DATA, reserved user_data");
+    let n = unsafe { env::E.enter_n };
+    if full {
+        assert!(n == 2, "queue full: enter to make room, then submit the message");
+        assert!(unsafe { env::E.enter_saw_sq_tail[1] } == t2, "the message was queued before the last enter");
+    } else {
+        assert!(n == 1);
+        assert!(unsafe { env::E.enter_saw_sq_tail[0] } == t2, "the message was queued before the enter that submits it");
+    }
+    let call = unsafe { env::E.enters[n - 1] };
+    assert!(call.to_submit >= 1 && call.has_ts && call.ts_sec == 0 && call.ts_nsec == 0, "non-blocking submit");
+    kani::cover!(full, "queue was full");
+    kani::cover!(!full && t < h, "wrapped");
+}
+
+/// Single-issuer ring: the message is sent synchronously with io_uring_register(SEND_MSG_RING), nothing is
+/// put on the (foreign-thread) submission queue.
+#[kani::proof]
+#[kani::unwind(3)]
+fn c11_wake_single_issuer() {
+    let h: u32 = kani::any();
+    let t: u32 = kani::any();
+    kani::assume(ring_inv(h, t, 2));
+    let mut ring = FakeSq::<2>::new(h, t, 0);
+    let subs = subs_of(ring.shared(2, false, true));
+    vu::polling_raw(subs.shared()).set_polling(true);
+    let fail: bool = kani::any();
+    unsafe {
+        env::E.reg_copy = 64;
+        env::E.reg_ret[0] = if fail { -1 } else { 0 };
+        env::E.reg_errno[0] = libc::EEXIST;
+    }
+    env::skip_wake_blocked_futures();
+    let r = subs.wake();
+    assert!(unsafe { env::E.reg_n } == 1 && unsafe { env::E.enter_n } == 0);
+    assert!(ring.tail.load(Ordering::SeqCst) == t, "nothing queued on the ring");
+    let call = unsafe { env::E.regs[0] };
+    assert!(call.fd == -1 && call.opcode == libc::IORING_REGISTER_SEND_MSG_RING && call.nr_args == 1);
+    assert!(W(call.words) == expected_wake_sqe(vu::RING_FD), "the same wake message, sent synchronously");
+    assert!(r.is_ok() == !fail);
+    std::mem::forget(r);
+    kani::cover!(fail, "register refused");
+    kani::cover!(!fail, "sent");
+}
